@@ -450,6 +450,18 @@ def generate():
     src_props['BoundedAttributes'] = ['items', 'dropped']
     consts = module_constants(snap_tree)
     sources = [v for k, v in consts.items() if k.startswith('WATCH_SOURCE_') and isinstance(v, str)]
+    # EventSnapshot.complete: how the duration is computed from the two clock readings
+    comp = find_def(snap_tree, 'EventSnapshot.complete')
+    cbody = [x for x in comp.body if not (isinstance(x, ast.Expr) and isinstance(x.value, ast.Constant))]
+    if len(cbody) != 1 or not isinstance(cbody[0], ast.Assign) \
+            or ast.unparse(cbody[0].targets[0]) != 'self._duration_nanos':
+        raise Untranslatable('EventSnapshot.complete is no longer one assignment to self._duration_nanos')
+    from pylean import Translator
+    trc = Translator(subst={'time_ns()': 'now', 'self._ts_nanos': 'ts'},
+                     calls={'max': lambda a: f'(max {a[0]} {a[1]})', 'min': lambda a: f'(min {a[0]} {a[1]})'})
+    parts.append('/-- `EventSnapshot.complete`: the duration from the time stamp of the hit (`ts`) and the clock reading at\n'
+                 '    completion (`now`, `time_ns()`) -/\n'
+                 f'def completeDuration (now ts : Int) : Int := {trc.expr(cbody[0].value)}\n')
     parts.append('/-- the watch sources the agent writes (eventsnapshot.py WATCH_SOURCE_*) -/\n'
                  'def watchSources : List String := [' + ', '.join(lean_str(s) for s in sources) + ']\n')
 
